@@ -105,6 +105,8 @@ Proof.
     destruct (reg s) eqn:Er; exists (LSdG i); eexists; (split; [reflexivity|]); simpl; rewrite Hg, E, Er; reflexivity.
   - (* GHold *)
     exists (LSdP i); eexists; split; [reflexivity|]. simpl; rewrite E; reflexivity.
+  - (* QIdle *)
+    exists (LPsd1 i); eexists; split; [reflexivity|]. simpl; rewrite Hg, E; reflexivity.
   - (* QMid *)
     exists (LPsd2 i); eexists; split; [reflexivity|]. simpl; rewrite E; reflexivity.
   - (* AwIdle *)
@@ -131,17 +133,21 @@ Proof.
     right. pose proof (i_glock s I) as Hc. rewrite Hgl in Hc; simpl in Hc.
     destruct (cnt_pos_nth is_ghold (thr s)) as (i & p & E & Hp); [lia|].
     destruct p; try discriminate.
-    exists (LSdP i); eexists; split; [reflexivity|]. simpl; rewrite E; reflexivity. }
+    - exists (LSdP i); eexists; split; [reflexivity|]. simpl; rewrite E; reflexivity.
+    - exists (LPsd2 i); eexists; split; [reflexivity|]. simpl; rewrite E; reflexivity. }
   destruct (existsb is_active (thr s)) eqn:Eact.
   { right. destruct (existsb_nth _ _ Eact) as (i & p & E & Hp). eapply active_can_move; eassumption. }
   left. pose proof (existsb_false_all _ _ Eact) as Hna.
-  (* no thread is active: QMid in particular, so the pool flag is set *)
-  assert (Hq : cnt is_qmid (thr s) = 0).
-  { apply sumf_all_zero. intros p Hp. specialize (Hna p Hp). destruct p; try discriminate; reflexivity. }
+  (* the group lock is free, so the pool flag is set *)
   assert (Hpsd : psd s = true).
-  { destruct (i_reg s I (i_gsd_reg s I Hgsd)) as [H|[H|H]]; [exact H | lia | congruence]. }
+  { destruct (i_reg s I (i_gsd_reg s I Hgsd)) as [H|H]; [exact H | congruence]. }
   destruct (i_psd_w s I Hpsd) as [Ht Ha].
-  destruct (i_gsd_w s I Hgsd Hgl) as [Hr Haw].
+  assert (Hgh : cnt is_gh (thr s) = 0).
+  { pose proof (i_glock s I) as Hc. rewrite Hgl in Hc; simpl in Hc.
+    pose proof (sumf_le (fun p => b2n (is_gh p)) (fun p => b2n (is_ghold p)) (thr s)) as Hle.
+    cbn beta in Hle. assert (forall p, b2n (is_gh p) <= b2n (is_ghold p)) as Hpt by (intros []; simpl; lia).
+    specialize (Hle Hpt). lia. }
+  destruct (i_gsd_w s I Hgsd Hgh) as [Hr Haw].
   pose proof (cnt_zero_all _ _ Ht) as Ht'. pose proof (cnt_zero_all _ _ Ha) as Ha'.
   pose proof (cnt_zero_all _ _ Hr) as Hr'.
   assert (Hlive : cnt is_live (thr s) = 0).
